@@ -148,12 +148,18 @@ class Scenario:
         self.viol.append((sig, {"rig": "real rnacos binary", "service": self.svc, "scenario_seed": self.seed, "detail": detail,
                                 "trace": list(self.trace[-40:])}))
 
+    def spell(self, v):
+        """clients spell booleans as their language prints them: true / True / TRUE"""
+        self.n_spell = getattr(self, "n_spell", 0) + 1
+        w = "true" if v else "false"
+        return (w, w.capitalize(), w.upper())[self.n_spell % 3]
+
     def http_reg(self, key, ephemeral=None, enabled=None, weight=None):
         form = {"serviceName": self.svc, "ip": key[0], "port": str(key[1])}
         if ephemeral is not None:
-            form["ephemeral"] = "true" if ephemeral else "false"
+            form["ephemeral"] = self.spell(ephemeral)
         if enabled is not None:
-            form["enabled"] = "true" if enabled else "false"
+            form["enabled"] = self.spell(enabled)
         if weight is not None:
             form["weight"] = str(weight)
         r = self._http(self.node.post, "/nacos/v1/ns/instance", form=form)
@@ -186,7 +192,7 @@ class Scenario:
 
     def lists(self):
         """(http hosts, grpc hosts) as {key: {...}} for healthyOnly=false"""
-        r = self._http(self.node.get, "/nacos/v1/ns/instance/list", params={"serviceName": self.svc, "healthyOnly": "false"})
+        r = self._http(self.node.get, "/nacos/v1/ns/instance/list", params={"serviceName": self.svc, "healthyOnly": self.spell(False)})
         if r.status != 200:
             raise common.Inconclusive("instance/list answered %s %s" % (r.status, r.text()[:200]))
         h = {(x["ip"], x["port"]): x for x in (r.json() or {}).get("hosts", [])}
